@@ -404,7 +404,7 @@ MUTANTS = [
     {'name': 'coverage test off by one (>)', 'edits': [('src/db.rs', "                            .is_some_and(|persisted| persisted >= batch.seqno)", "                            .is_some_and(|persisted| persisted > batch.seqno)")]},
     {'name': 'replay uses seqno+1', 'edits': [('src/db.rs', "                                tree.insert(item.key, item.value, batch.seqno);", "                                tree.insert(item.key, item.value, batch.seqno + 1);")]},
     {'name': 'weak tombstones replayed as tombstones', 'edits': [('src/db.rs', "                                tree.remove_weak(item.key, batch.seqno);", "                                tree.remove(item.key, batch.seqno);")]},
-    {'name': 'clear records not re-executed', 'edits': [('src/db.rs', "                        keyspace.tree.clear().inspect_err(|e| {", "                        Ok::<(), lsm_tree::Error>(()).inspect_err(|e: &lsm_tree::Error| {")]},
+    {'name': 'clear records not re-executed', 'edits': [('src/db.rs', "                        keyspace.tree.clear().ok();", "                        let _ = &keyspace.tree;")]},
     {'name': 'sealed: coverage rule dropped', 'edits': [('src/recovery.rs', "                    .is_some_and(|persisted| persisted >= batch.seqno)", "                    .is_some_and(|_persisted| false)")]},
     {'name': 'sealed: tombstone replayed as insert of empty value', 'edits': [('src/recovery.rs', "                        tree.remove(item.key, batch.seqno);", "                        tree.insert(item.key, lsm_tree::Slice::from(\"\"), batch.seqno);")]},
     {'name': 'sealed: memtable not sealed after replay', 'edits': [('src/recovery.rs', "            } else if let Some(sealed_memtable) = tree.rotate_memtable() {", "            } else if let Some(sealed_memtable) = None::<std::sync::Arc<lsm_tree::Memtable>> {")]},
